@@ -1117,7 +1117,7 @@ class World:
                 ex = [x.num for x in r.responses if x.kind == "num" and x.name == "EXISTS"]
                 if ex and ex[-1]:
                     rf = await o.cmd("UID FETCH 1:* (UID FLAGS)")
-                    for n, d in sorted(rf.fetches()):
+                    for n, d in sorted(rf.fetches(), key=lambda t: t[0]):
                         rows.append((n, d.get("UID"), sorted(f for f in d.get("FLAGS", []) if canon_flag(f) != "\\Recent")))
                 await o.cmd("UNSELECT")
             snap["boxes"][nm] = {"status": st, "rows": rows, "selectable": r.ok}
